@@ -296,6 +296,15 @@ def oracle_c10(ent, d):
                 for k in ("adapters", "error_rate", "overlap", "no_indels", "no_wild", "read_wild", "times", "action", "revcomp"):
                     setattr(c2, k, getattr(cfg, k))
                 active = True
+        elif key == "strip_suffix":
+            # given several times, the suffixes are removed one after the other in the order given: one run per suffix
+            for suf in cfg.strip_suffix:
+                c2 = S.Cfg(fasta=cfg.fasta, qbase=cfg.qbase, strip_suffix=(suf,))
+                res = S.run_impl(c2, cur, d)
+                if res["exit"] != 0:
+                    return None
+                cur = res["files"].get(0, [])
+            continue
         else:
             v = getattr(cfg, key)
             if v != default and v is not None and v != ():
@@ -512,6 +521,7 @@ def oracle_c20(ent):
         return None  # the info file shows the untrimmed input read: removed lengths cannot be read off it
     # tally from the info file of the same run
     tall = {a.name: {"five_prime_end": {}, "three_prime_end": {}} for a in objs}
+    tbase = {a.name: {"A": 0, "C": 0, "G": 0, "T": 0, "": 0} for a in objs}
     nrc = {a.name: 0 for a in objs}
     by_read_last = {}
     for row in res["info"]:
@@ -529,6 +539,10 @@ def oracle_c20(ent):
         ln = end if front else len(whole) - start
         tall[aname][key].setdefault(ln, {}).setdefault(errors, 0)
         tall[aname][key][ln][errors] += 1
+        if not front:
+            # the base in front of a removed 3' adapter: A, C, G, T, or "" for anything else / none
+            b_ = whole[start - 1:start] if start > 0 else ""
+            tbase[aname][b_ if b_ in ("A", "C", "G", "T") else ""] += 1
         if row[-1] == "1" and part in (None, "1"):
             nrc[aname] += 1
         elif row[-1] == "1" and part == "2" and by_read_last.get(row[0]) != aname + ";1":
@@ -544,6 +558,11 @@ def oracle_c20(ent):
             tot += sum(sum(d.values()) for d in want.values())
         if st["total_matches"] != tot:
             return "adapter %s: total_matches %d, tally %d" % (a.name, st["total_matches"], tot)
+        if st["three_prime_end"] is not None:
+            gotb = st["three_prime_end"].get("adjacent_bases")
+            wantb = tbase[a.name] if sum(tbase[a.name].values()) else None
+            if gotb != wantb:
+                return "adapter %s: bases preceding removed 3' adapters %r, tally of the info file %r" % (a.name, gotb, wantb)
         if (st["on_reverse_complement"] or 0) != nrc[a.name]:
             return "adapter %s: on_reverse_complement %r, tally %d" % (a.name, st["on_reverse_complement"], nrc[a.name])
     return None
@@ -1129,7 +1148,7 @@ def relative_demux_part(ctx, dist):
                 x = U.rand_seq(rng, 8, "ACGT")
                 if all(sum(a != b for a, b in zip(x, y)) >= 4 for y in seqs):
                     seqs.append(x)
-            mode = rng.choice(["single", "paired", "combinatorial"])
+            mode = rng.choice(["single", "paired", "combinatorial", "r2only", "inter1"])
             nofile = None
             if _ == 0 or rng.random() < 0.1:
                 # more output files than the soft limit on open files allows: the files are still all created and filled
@@ -1153,7 +1172,14 @@ def relative_demux_part(ctx, dist):
                 recs.append(("r%d" % i, r1, r2))
                 n1 = "unknown" if k is None else names[k]
                 n2 = "unknown" if k2 is None else names[k2]
-                key = n1 if mode != "combinatorial" else "%s-%s" % (n1, n2)
+                if mode == "combinatorial":
+                    key = "%s-%s" % (n1, n2)
+                elif mode == "r2only":
+                    key = "unknown-%s" % n2        # adapters on R2 only: the first name of every pair is 'unknown'
+                elif mode == "inter1" and k is None:
+                    key = "untr"                   # the --untrimmed-output file takes the first reads of pairs without a match
+                else:
+                    key = n1
                 want.setdefault(key, []).append("r%d" % i)
             with open(os.path.join(d, "in.1.fastq"), "w") as f:
                 for n, a, b in recs:
@@ -1162,9 +1188,20 @@ def relative_demux_part(ctx, dist):
                 for n, a, b in recs:
                     f.write("@%s\n%s\n+\n%s\n" % (n, b, "I" * len(b)))
             argv = ["-e", "0"]
-            for nm, sq in zip(names, seqs):
-                argv += ["-g", "%s=^%s" % (nm, sq)]
-            if mode == "single":
+            if mode != "r2only":
+                for nm, sq in zip(names, seqs):
+                    argv += ["-g", "%s=^%s" % (nm, sq)]
+            if mode == "r2only":
+                for nm, sq in zip(names, seqs):
+                    argv += ["-G", "%s=^%s" % (nm, sq)]
+                argv += ["-o", "{name1}-{name2}.1.fastq", "-p", "{name1}-{name2}.2.fastq", "in.1.fastq", "in.2.fastq"]
+            elif mode == "inter1":
+                # interleaved input, {name} templates for both mates and only ONE of the two untrimmed options
+                with open(os.path.join(d, "in.inter.fastq"), "w") as f:
+                    for n, a, b in recs:
+                        f.write("@%s\n%s\n+\n%s\n@%s\n%s\n+\n%s\n" % (n, a, "I" * len(a), n, b, "I" * len(b)))
+                argv += ["--interleaved", "-o", "{name}.1.fastq", "-p", "{name}.2.fastq", "--untrimmed-output", "untr.1.fastq", "in.inter.fastq"]
+            elif mode == "single":
                 argv += ["-o", "{name}.fastq", "in.1.fastq"]
             elif mode == "paired":
                 argv += ["-o", "{name}.1.fastq", "-p", "{name}.2.fastq", "in.1.fastq", "in.2.fastq"]
@@ -1195,6 +1232,11 @@ def relative_demux_part(ctx, dist):
                             continue
                         stem = stem[:-2]
                     got[stem] = [l[1:].strip() for l in open(os.path.join(d, f)).read().split("\n")[0::4] if l.startswith("@")]
+                if why is None and mode == "inter1":
+                    un2 = os.path.join(d, "unknown.2.fastq")
+                    ids2 = [l[1:].strip() for l in open(un2).read().split("\n")[0::4] if l.startswith("@")] if os.path.exists(un2) else None
+                    if ids2 != want.get("untr", []):
+                        why = "second reads of the pairs without a match: unknown.2.fastq holds %r, expected %r" % (ids2, want.get("untr", []))
                 if why is None and nofile and mode == "single" and set(got) != set(names) | {"unknown"}:
                     why = "files for %d of the %d adapter names were created" % (len(set(got) & set(names)), len(names))
                 if why is None and {k: v for k, v in got.items() if v} != want:
